@@ -6,6 +6,7 @@ import (
 	"fmt"
 	"go/token"
 	"go/types"
+	"regexp"
 	"sort"
 	"strings"
 
@@ -583,7 +584,13 @@ func ruleBindingProvenance(c *Ctx, rule string) {
 			}
 		})
 		want := "es.environment.Get(name)#0.String().Value, false, false"
-		ob.Check(got == want, "MATCH("+got+")", "MATCHVAR calls MATCH("+got+"), expected MATCH("+want+")")
+		// the bound value is looked up by name - in the environment, or by a method of the state that knows the tables a capture
+		// may have gone to (which tables: C02.R12) - and matched as it is, not negated, case as bound
+		okForm := got == want
+		if m2 := regexp.MustCompile(`^es\.[A-Za-z_]+\(name\)#0\.String\(\)\.Value, false, false$`); m2.MatchString(got) {
+			okForm = true
+		}
+		ob.Check(okForm, "MATCH("+got+")", "MATCHVAR calls MATCH("+got+"), expected MATCH("+want+") or the same through a lookup method of the state")
 		ob.Nontrivial = true
 	}
 }
